@@ -97,7 +97,15 @@ Proof. exact offered_text. Qed.
 Theorem C07_full_semver_read_as_is :
   forall s v, SemVer.parse s = Some v -> pad (strip_ops s) = s /\ parse_version s = Some v.
 Proof. exact full_semver_read_as_is. Qed.
+(* ... and the edited spec means what the action says: the same lenient parser reads [operator prefix ++ offered
+   text] as the target version *)
+Theorem C07_edited_spec_denotes_target :
+  forall keep current versions s, latest_where keep current versions = Some s ->
+  exists v m, In v versions /\ parse_version v = Some m /\ s = show m /\
+              parse_version (extract_version_prefix current ++ s) = Some m.
+Proof. exact offered_action_denotes_target. Qed.
 Print Assumptions C07_offered_text.
+Print Assumptions C07_edited_spec_denotes_target.
 
 Print Assumptions C07_targets.
 Print Assumptions C07_edit_local.
